@@ -1089,6 +1089,22 @@ def eval_option(case, tmpdir=None):
 
     same("update", via_update)
 
+    # update() with a value that COMPARES equal to the stored one and means something else (vary_rounds 1 = one round,
+    # 1.0 = 100 %; True == 1): the new value and its type are what the context exports afterwards
+    if opt == "vary_rounds" and not case.get("nullish") and v is not None:
+        for a, b in ((1, 1.0), (1.0, 1)):
+            try:
+                with warnings.catch_warnings():
+                    warnings.simplefilter("ignore")
+                    o = CryptContext(schemes=[name], **{key: a})
+                    o.update(**{key: b})
+                    ek, ev_ = _expected_export(key, b)
+                    got = o.to_dict().get(ek, _MISSING)
+            except Exception as e:  # noqa: BLE001
+                out.append((f"C10|options|update_equal_valued:raises:{tag}:{type(e).__name__}", f"CryptContext(schemes=[{name!r}], {key}={a!r}).update({key}={b!r}) raised {e!r}"))
+                continue
+            if got is _MISSING or got != ev_ or type(got) is not type(ev_):
+                out.append((f"C10|options|update_equal_valued:not_applied:{tag}", f"CryptContext(schemes=[{name!r}], {key}={a!r}).update({key}={b!r}) exports {ek} = {got!r}, expected {ev_!r}"))
     # update(key=None) UNSETS the key, whatever spelling it was given under (bare / all__ for the context-wide settings)
     if not case.get("nullish") and v is not None:
         pairs = [(key, key)]
